@@ -45,12 +45,15 @@ byte offsets.
 namespace Pcore.LoaderSeq
 
 /-- what a loader entry holds: `ty n` = the type `Integer[n,n]`, `str n` = a String value (not a type, has `Equals`),
-    `al name n` = the alias type `name = Integer[n,n]`.  Go's `ov == nv || ov.Equals(nv)` is structural equality here. -/
+    `al name n` = the alias type `name = Integer[n,n]`, `tset name ver` = a TypeSet.  Go's `ov == nv || ov.Equals(nv)` is
+    structural equality here. -/
 inductive V where
   | ty (n : Nat)
   | str (n : Nat)
   | al (name : String) (n : Nat)
   | core (name : String)            -- a core type held by the static loader (lower-cased name)
+  | tset (name : String) (ver : Nat) -- a type set `name`, version `1.0.ver`: `typeSet.Equals` compares name, authority, pcore
+                                     -- uri / version and version — NOT the members
   deriving DecidableEq, Repr, Inhabited
 
 /-- `_, ok := v.(px.Type)` -/
